@@ -7,6 +7,7 @@ cassandra.pool.Host objects in a real Metadata.  In every state the plans and di
 registered policy instance are judged by the reference live-set model vt/spec/lbpref.py.
 """
 from vt import explore
+from vt.core import Part
 from vt.world import vworld   # noqa: F401  imported here so that forked workers inherit the loaded driver
 from vt.spec import lbpref
 
@@ -49,7 +50,15 @@ def make_policy(spec):
             return P.WhiteListRoundRobinPolicy(['node%d.test' % i for i in sorted(spec[1])])
         return P.WhiteListRoundRobinPolicy([addr(i) for i in sorted(spec[1])])
     if k == 'filter':
-        ex = frozenset(addr(i) for i in spec[2])
+        rule = spec[2]
+        if isinstance(rule, tuple):
+            # predicates on the host's location now ("drain this datacenter / rack", "only this datacenter")
+            what, name = rule
+            pred = {'dc': lambda h: h.datacenter != name,
+                    'rack': lambda h: h.rack != name,
+                    'onlydc': lambda h: h.datacenter == name}[what]
+            return P.HostFilterPolicy(make_policy(spec[1]), pred)
+        ex = frozenset(addr(i) for i in rule)
         return P.HostFilterPolicy(make_policy(spec[1]), lambda h: h.address not in ex)
     if k == 'wrap':
         child = make_policy(spec[1])
@@ -78,6 +87,8 @@ def tup(x):
         if x and x[0] == 'whitelist':
             return ('whitelist', frozenset(x[1])) + tuple(x[2:])
         if x and x[0] == 'filter':
+            if isinstance(x[2], tuple) and x[2] and isinstance(x[2][0], str):
+                return ('filter', x[1], tuple(x[2]))
             return ('filter', x[1], frozenset(x[2]))
         return x
     return x
@@ -134,6 +145,8 @@ class St(object):
         self.cluster.profile_manager.profiles[EXEC_PROFILE_DEFAULT] = ExecutionProfile(load_balancing_policy=pol)
         self.insts = [[pol, None]]
         self.depth = 0
+        self.hist = []
+        self.mid = Part()      # observe mode: what the plans requested in the middle of the history showed
 
     def close(self):
         pass
@@ -196,6 +209,14 @@ class H(explore.Harness):
         return evs
 
     def apply(self, st, ev):
+        self._apply(st, ev)
+        st.hist.append(ev)
+        if self.params.get('observe'):
+            # the application asks for plans (and the pools for distances) between any two membership events:
+            # every instance is asked and judged after every event of the history, not only in its last state
+            self._judge_state(st, st.mid, list(st.hist))
+
+    def _apply(self, st, ev):
         from cassandra.cluster import Cluster, ControlConnection, ExecutionProfile
         from cassandra.policies import HostDistance
         pm = st.cluster.profile_manager
@@ -315,9 +336,18 @@ class H(explore.Harness):
         return out
 
     def check(self, st, part, hist):
-        from cassandra.policies import HostDistance
         if st.contacts is None:
             return
+        self._judge_state(st, part, hist)
+        for fp, what, data in st.mid.violations:
+            part.violation(fp, what, data)
+        if st.mid.counters.get('plans_judged'):
+            part.count('plans_judged_mid_history', st.mid.counters['plans_judged'])
+        if len(hist) >= 3:
+            part.mark_nontrivial(repr(self.canon(st)))
+
+    def _judge_state(self, st, part, hist):
+        from cassandra.policies import HostDistance
         names = {HostDistance.LOCAL: 'LOCAL', HostDistance.REMOTE: 'REMOTE', HostDistance.IGNORED: 'IGNORED'}
         def leafname(s):
             if s[0] == 'dcaware':
@@ -327,8 +357,10 @@ class H(explore.Harness):
         if st.spec[0] == 'wrap':
             kind = '%s(%s)' % (st.spec[2], leafname(st.spec[1]))
         if st.spec[0] == 'filter':
-            kind = 'filter(%s)' % leafname(st.spec[1])
+            rule = st.spec[2]
+            kind = 'filter%s(%s)' % ('-by-%s' % rule[0] if isinstance(rule, tuple) else '', leafname(st.spec[1]))
         dcs = dict((i, st.objs[i].datacenter) for i in st.known())
+        racks = dict((i, st.objs[i].rack) for i in st.known())
         universe = range(st.n)
         data = {'params': dict(self.params, spec=plain(st.spec)), 'history': hist}
         for n_inst, (pol, ref) in enumerate(st.insts):
@@ -342,6 +374,7 @@ class H(explore.Harness):
                     plan.append(i)
                     # a host that is no longer in the metadata can only be judged as "not live"
                     dcs.setdefault(i, h.datacenter)
+                    racks.setdefault(i, h.rack)
                 tplan = plan
                 if target is not None:
                     th = st.objs[target]
@@ -356,27 +389,26 @@ class H(explore.Harness):
                             continue
                         # the remainder is the child's plan without the target
                         ref_dist = dict(dist)
-                        bad = [b for b in ref.judge(tplan, ref_dist, dcs, universe)
+                        bad = [b for b in ref.judge(tplan, ref_dist, dcs, universe, racks)
                                if b[0] not in ('live-host-missing', 'local-hosts-not-first', 'remote-hosts-missing')
                                and not b[0].startswith('distance-inconsistent')]
-                        missing = set(ref.leaf().live) - ref.excluded() - set(tplan) - {target}
+                        missing = set(ref.leaf().live) - ref.excluded(dcs, racks) - set(tplan) - {target}
                         if st.spec[1][0] == 'rr' and missing:
                             bad.append(('live-host-missing', 'plan %r (target %d) lacks live host(s) %r' % (plan, target, sorted(missing))))
                     else:
-                        bad = ref.judge(plan, dist, dcs, universe)
+                        bad = ref.judge(plan, dist, dcs, universe, racks)
                 else:
-                    bad = ref.judge(plan, dist, dcs, universe)
+                    bad = ref.judge(plan, dist, dcs, universe, racks)
                 for clause, text in bad:
                     part.violation('C21/%s/%s/%s' % (kind, clause, how),
                                    '%s [%s instance of %r; hosts (dc, rack, is_up) %r; metadata order %r; reference live set %r, local dc %r]'
                                    % (text, how, plain(st.spec), [(i, st.objs[i].datacenter, st.objs[i].rack, st.objs[i].is_up) for i in st.known()],
                                       st.order(), sorted(ref.leaf().live), ref.leaf().local_dc), data)
                 part.outcome((kind, how, len(plan), len(set(dist.values()))))
-        if len(hist) >= 3:
-            part.mark_nontrivial(repr(self.canon(st)))
 
 
 def specs(ctx):
+    """(name, spec, observe).  observe: plans and distances are also requested (and judged) after every event inside the history."""
     dca = [('dcaware', ldc, n) for ldc in ('', 'dc1') for n in (0, 1, 2)]
     out = [('rr', ('rr',))]
     out += [('dcaware-%s-%d' % (s[1] or 'infer', s[2]), s) for s in dca]
@@ -390,23 +422,44 @@ def specs(ctx):
         ('tokenaware-rr', ('wrap', ('rr',), 'tokenaware')),
         ('tokenaware-dcaware', ('wrap', ('dcaware', 'dc1', 2), 'tokenaware')),
     ]
-    return out
+    base = [(name, spec, False) for name, spec in out]
+    # predicates that depend on the host's location (which changes inside a history), always with plans inside the history
+    loc = [
+        ('filter-by-dc-rr', ('filter', ('rr',), ('dc', 'dc2'))),
+        ('filter-by-rack-rr', ('filter', ('rr',), ('rack', 'r2'))),
+        ('filter-by-onlydc-rr', ('filter', ('rr',), ('onlydc', 'dc1'))),
+        ('filter-by-dc-dcaware', ('filter', ('dcaware', 'dc1', 1), ('dc', 'dc2'))),
+        ('filter-by-rack-dcaware', ('filter', ('dcaware', '', 2), ('rack', 'r2'))),
+        ('filter-by-onlydc-dcaware', ('filter', ('dcaware', 'dc1', 2), ('onlydc', 'dc2'))),
+    ]
+    obs = [(name + '+observed', spec, True) for name, spec in loc]
+    # every other configuration once more with plans inside the history (quick: one per policy class)
+    twins = out if ctx.thorough else [x for x in out if x[0] in OBSERVED_QUICK]
+    obs += [(name + '+observed', spec, True) for name, spec in twins]
+    if ctx.thorough:
+        base += [(name, spec, False) for name, spec in loc]
+    return base + obs
+
+
+OBSERVED_QUICK = ('rr', 'dcaware-infer-1', 'dcaware-dc1-2', 'whitelist', 'filter-rr', 'filter-dcaware', 'default-dcaware', 'tokenaware-rr')
 
 
 def configs(ctx):
     out = []
-    for name, spec in specs(ctx):
+    for name, spec, observe in specs(ctx):
         leaf = spec
         while leaf[0] in ('filter', 'wrap'):
             leaf = leaf[1]
         if ctx.quick:
             p = dict(spec=plain(spec), hosts=4, ndc=2, home=['dc1', 'dc2', 'dc1', 'dc2'],
                      contact_sets=[[0], [0, 1], [1, 0], [0, 2]], ghosts=True, profiles=1)
-            depth = 5 if leaf[0] == 'dcaware' and spec[0] == 'dcaware' else 4
+            depth = 5 if leaf[0] == 'dcaware' and spec[0] == 'dcaware' and not observe else 4
         else:
             p = dict(spec=plain(spec), hosts=6, ndc=3, home=['dc1', 'dc2', 'dc1', 'dc3', 'dc2', 'dc3'],
                      contact_sets=[[0], [0, 1], [1, 0], [0, 2], [3, 0]], ghosts=True, profiles=1)
-            depth = 6 if leaf[0] == 'dcaware' and spec[0] == 'dcaware' else 5
+            depth = 6 if leaf[0] == 'dcaware' and spec[0] == 'dcaware' and not observe else 5
+        if observe:
+            p['observe'] = True
         out.append((name, p, depth))
     return out
 
